@@ -408,6 +408,7 @@ func c10(c *Ctx) {
 	}
 
 	// ---------------- Part B: store histories ----------------
+	c10DirectedPromote(c)
 	for cs := 0; cs < c.N; cs++ {
 		c10Case(c, cs)
 	}
@@ -524,9 +525,327 @@ func c10Case(c *Ctx, caseNo int) {
 		}
 	}
 
+	// mkBlock builds one block on pid: mode 0 = random changes, 1 = at least one candidate account changes,
+	// 2 = no candidate account changes.  Returns the block id.
+	var ids []int
+	mkBlock := func(pid int, mode int) int {
+		ids = liveIDs()
+		p := live[pid]
+		id := nextID
+		nextID++
+		view := c10CopyView(p.view)
+		nch := 1 + c.Rnd.Intn(3)
+		if c.Rnd.Intn(6) == 0 {
+			nch = 1 + c.Rnd.Intn(universe)
+		}
+		if p.height == 0 && c.Rnd.Intn(2) == 0 {
+			nch = universe // a "genesis-like" first block registering many candidates
+		}
+		if nch > universe {
+			nch = universe
+		}
+		perm := c.Rnd.Perm(universe)
+		var chs []c10Change
+		for _, ai := range perm[:nch] {
+			a := ai + 1
+			cur, ok := view[a]
+			if !ok {
+				cur = c10Acct{flag: 'n'}
+			}
+			var ch c10Change
+			switch cur.flag {
+			case 'n':
+				if oddCase && c.Rnd.Intn(3) == 0 {
+					// first registration with a user-supplied isCandidate string: profile and deposit votes are set
+					ch = c10Change{a, 'o', voteVals[1+c.Rnd.Intn(len(voteVals)-1)], true}
+					c.Count("chg:register-odd-flag")
+				} else if c.Rnd.Intn(6) == 0 {
+					ch = c10Change{a, 'n', 0, false}
+					c.Count("chg:touch-noncandidate")
+				} else {
+					// registration: the VotesLog is present (genesis logs 0 votes, a register tx logs deposit votes)
+					ch = c10Change{a, 'y', voteVals[c.Rnd.Intn(len(voteVals))], true}
+					c.Count("chg:register")
+					if ch.votes == 0 {
+						c.Count("chg:register-zero-votes")
+					}
+				}
+			case 'y':
+				switch x := c.Rnd.Intn(20); {
+				case x < 15:
+					v := voteVals[c.Rnd.Intn(len(voteVals))]
+					if v == cur.votes {
+						ch = c10Change{a, 'y', cur.votes, false}
+						c.Count("chg:touch-candidate")
+					} else {
+						ch = c10Change{a, 'y', v, true}
+						if v > cur.votes {
+							c.Count("chg:votes-up")
+						} else {
+							c.Count("chg:votes-down")
+						}
+					}
+				case x < 17:
+					ch = c10Change{a, 'y', cur.votes, false}
+					c.Count("chg:touch-candidate")
+				default:
+					// un-registration sets votes to 0; a VotesLog exists only if the votes changed
+					ch = c10Change{a, 'u', 0, cur.votes != 0}
+					c.Count("chg:unregister")
+					if cur.votes == 0 {
+						c.Count("chg:unregister-zero-votes(no log)")
+					}
+				}
+			case 'u':
+				ch = c10Change{a, 'u', 0, false}
+				c.Count("chg:touch-unregistered")
+			case 'o':
+				// it can be voted for (CallVoteTx only refuses "false" and ""), it cannot un-register
+				if v := voteVals[1+c.Rnd.Intn(len(voteVals)-1)]; v != cur.votes && c.Rnd.Intn(2) == 0 {
+					ch = c10Change{a, 'o', v, true}
+					c.Count("chg:votes-of-odd-flag-account")
+				} else {
+					ch = c10Change{a, 'o', cur.votes, false}
+					c.Count("chg:touch-odd-flag-account")
+				}
+			}
+			if malformed && c.Rnd.Intn(3) == 0 {
+				// outside what the chain can produce: re-registration, unlogged vote change, log without change
+				switch c.Rnd.Intn(3) {
+				case 0:
+					ch = c10Change{a, 'y', voteVals[c.Rnd.Intn(len(voteVals))], c.Rnd.Intn(2) == 0}
+				case 1:
+					ch.logged = !ch.logged
+				case 2:
+					ch.votes = voteVals[c.Rnd.Intn(len(voteVals))]
+				}
+				c.Count("chg:malformed")
+			}
+			chs = append(chs, ch)
+			view[a] = c10Acct{ch.flag, ch.votes}
+		}
+		switch mode {
+		case 1: // at least one account with a candidate profile changes in this block
+			has := false
+			for _, ch := range chs {
+				has = has || ch.flag != 'n'
+			}
+			if !has {
+				chs = nil
+				a := 1 + c.Rnd.Intn(universe)
+				cur, ok := p.view[a]
+				switch {
+				case !ok || cur.flag == 'n':
+					chs = append(chs, c10Change{a, 'y', voteVals[1+c.Rnd.Intn(len(voteVals)-1)], true})
+				case cur.flag == 'y':
+					chs = append(chs, c10Change{a, 'y', cur.votes + 10, true})
+				default:
+					chs = append(chs, c10Change{a, cur.flag, cur.votes, false})
+				}
+				view = c10CopyView(p.view)
+				view[a] = c10Acct{chs[0].flag, chs[0].votes}
+			}
+		case 2: // no account with a candidate profile changes: the block is empty or touches a non-candidate
+			chs = nil
+			view = c10CopyView(p.view)
+			if c.Rnd.Intn(2) == 0 {
+				for a := 1; a <= universe; a++ {
+					if cur, ok := view[a]; !ok || cur.flag == 'n' {
+						chs = append(chs, c10Change{a, 'n', 0, false})
+						view[a] = c10Acct{'n', 0}
+						break
+					}
+				}
+			}
+			c.Count("blk:candidate-free")
+		}
+		var extra []c10CV
+		if malformed && mode != 2 && c.Rnd.Intn(3) == 0 {
+			ne := 1 + c.Rnd.Intn(2)
+			for i := 0; i < ne; i++ {
+				extra = append(extra, c10CV{1 + c.Rnd.Intn(universe), voteVals[c.Rnd.Intn(len(voteVals))]})
+			}
+			c.Count("blk:extra-raw-logs")
+		}
+		// vote logs arrive sorted by address (MergeChangeLogs); account puts in map order — irrelevant
+		sort.Slice(chs, func(i, j int) bool { return chs[i].addr < chs[j].addr })
+		var toks []string
+		anyLog := len(extra) > 0
+		for _, ch := range chs {
+			toks = append(toks, c10ChangeTok(ch))
+			anyLog = anyLog || ch.logged
+		}
+		for _, x := range extra {
+			toks = append(toks, fmt.Sprintf("x%d:%d", x.addr, x.votes))
+		}
+		line := fmt.Sprintf("blk %d %d %s", id, pid, strings.Join(toks, " "))
+		out2 := s2.apply(id, pid, chs, extra)
+		out1 := s1.apply(id, pid, chs, extra)
+		op(line, out2)
+		nb := &c10Live{id: id, pid: pid, height: p.height + 1, view: view, tainted: p.tainted}
+		for _, ch := range chs {
+			if ch.flag != 'n' {
+				nb.changesWithProfile = append(nb.changesWithProfile, ch.addr)
+			}
+		}
+		live[id] = nb
+		if pid != ids[len(ids)-1] {
+			c.Count("blk:fork")
+		}
+		if !anyLog {
+			c.Count("blk:no-vote-log(early return)")
+		}
+		if reopened {
+			c.Count("blk:after-reopen")
+		}
+		c10ClassifyBranch(c, p, chs, max, s2, pid, anyLog)
+		if out2 == "panic" || strings.HasPrefix(out2, "err") {
+			c.Count("blk:" + firstWord(out2))
+			nb.tainted = true
+			if !malformed {
+				fail("c10/ranking-panic", fmt.Sprintf("case %d: %s => %s", caseNo, line, out2))
+			}
+			return id
+		}
+		if malformed || nb.tainted {
+			return id
+		}
+		// ---------- direct oracle ----------
+		reg, flags := s2.registeredInView(id, universe)
+		for a := 1; a <= universe; a++ {
+			sh, ok := view[a]
+			if !ok {
+				sh = c10Acct{flag: 'n'}
+			}
+			if flags[a] != sh.flag {
+				fail("c10/view-mismatch", fmt.Sprintf("case %d block %d: account %d reads flag %c through the block's view, %c was put", caseNo, id, a, flags[a], sh.flag))
+				nb.tainted = true
+			}
+		}
+		want := c10FullSort(reg, max)
+		got := c10FromStore(s2.db.GetCandidatesTop(s2.blocks[id].Hash()))
+		ref := c10FromStore(s1.db.GetCandidatesTop(s1.blocks[id].Hash()))
+		_ = out1
+		hasOdd := false
+		for _, f := range flags {
+			if f == 'o' {
+				hasOdd = true
+			}
+		}
+		// root cause of whatever diverges on this lineage
+		sfx := ""
+		if hasOdd {
+			sfx = "/odd-candidate-flag"
+			c.Count("oracle:lineage-with-odd-flag(spec comparison skipped, restart comparison armed)")
+		} else if crashed {
+			sfx = "/crash-context-not-flushed"
+		}
+		hasUnreg, unregVotes := false, false
+		for _, g := range got {
+			if flags[g.addr] != 'y' && flags[g.addr] != 'o' {
+				hasUnreg = true
+				if g.votes != 0 {
+					unregVotes = true
+				}
+			}
+		}
+		ctx := fmt.Sprintf("case %d (max %d) block %d on %d: top=%s, full sort of the registered candidates of its view=%s, never-restarted store=%s", caseNo, max, id, pid, c10ShowCands(got), c10ShowCands(want), c10ShowCands(ref))
+		if hasUnreg {
+			if unregVotes && crashed {
+				fail("c10/unregistered-returns-with-votes/crash-context-not-flushed", ctx)
+			} else {
+				fail("c10/top-contains-unregistered", ctx)
+			}
+			nb.tainted = true
+		}
+		if !c10Equal(got, ref) {
+			fail("c10/restart-differs"+sfx, ctx)
+			nb.tainted = true
+		}
+		if !hasOdd && !hasUnreg && !c10Equal(got, want) && c10Equal(got, ref) {
+			tie := false
+			for i := 0; i < len(got) && i < len(want); i++ {
+				if got[i] != want[i] {
+					tie = got[i].votes == want[i].votes
+					break
+				}
+			}
+			if tie {
+				fail("c10/top-not-sorted-prefix/tie", ctx)
+			} else {
+				fail("c10/top-not-sorted-prefix", ctx)
+			}
+			nb.tainted = true
+		}
+		if !nb.tainted {
+			c.Count("oracle:block-ok")
+		}
+		return id
+	}
+
+	doStable := func(id int) {
+		ids = liveIDs()
+		depth := 0
+		for x := id; x != stable && depth < 4; x = live[x].pid {
+			depth++
+		}
+		c.Count(fmt.Sprintf("op:stable-promotes-%d-block(s)-in-one-call", depth))
+		out2 := s2.setStable(id)
+		s1.setStable(id)
+		op(fmt.Sprintf("stable %d", id), out2)
+		c.Count("op:stable")
+		var drop []int
+		for _, x := range ids {
+			if !isDesc(x, id) {
+				drop = append(drop, x)
+			}
+		}
+		for _, x := range drop {
+			dead = append(dead, x)
+			delete(live, x)
+		}
+		stable = id
+	}
+	doReopen := func() {
+		ids = liveIDs()
+		drained := c.Rnd.Intn(4) != 0 // 1 in 4 restarts happens with writes still queued
+		s2.reopen(drained)
+		if !drained {
+			c.Count("op:reopen-with-pending-writes")
+		}
+		out := s2.showBlock(stable)
+		op("reopen", out)
+		c.Count("op:reopen")
+		reopened = true
+		for _, x := range ids {
+			if x != stable {
+				dead = append(dead, x)
+				delete(live, x)
+			}
+		}
+		lb := live[stable]
+		if !malformed && !lb.tainted {
+			want1 := c10FromStore(s1.db.GetCandidatesTop(s1.blocks[stable].Hash()))
+			got := c10FromStore(s2.db.GetCandidatesTop(s2.blocks[stable].Hash()))
+			if !c10Equal(got, want1) {
+				sfx := ""
+				for _, acc := range lb.view {
+					if acc.flag == 'o' {
+						sfx = "/odd-candidate-flag"
+					}
+				}
+				if sfx == "" && crashed {
+					sfx = "/crash-context-not-flushed"
+				}
+				fail("c10/restart-differs"+sfx, fmt.Sprintf("case %d: top of the stable block %d after re-open %s, before %s", caseNo, stable, c10ShowCands(got), c10ShowCands(want1)))
+				lb.tainted = true
+			}
+		}
+	}
+
 	nOps := 6 + c.Rnd.Intn(14) + nOpsExtra
 	for k := 0; k < nOps; k++ {
-		ids := liveIDs()
+		ids = liveIDs()
 		r := c.Rnd.Intn(100)
 		switch {
 		case r < 74 || len(ids) == 1: // ---- new block
@@ -536,220 +855,33 @@ func c10Case(c *Ctx, caseNo int) {
 			} else {
 				pid = ids[len(ids)-1] // extend the newest block
 			}
-			p := live[pid]
-			id := nextID
-			nextID++
-			view := c10CopyView(p.view)
-			nch := 1 + c.Rnd.Intn(3)
-			if c.Rnd.Intn(6) == 0 {
-				nch = 1 + c.Rnd.Intn(universe)
+			mkBlock(pid, 0)
+		case r < 78 && !malformed: // ---- several blocks promoted by ONE SetStableBlock call, then a restart
+			// blockCommit runs once per block of the path and each run must leave the candidate list on disk:
+			// candidate changes sit in the non-last blocks, the last block (mostly) touches no candidate account
+			pid := stable
+			if c.Rnd.Intn(2) == 0 {
+				pid = ids[len(ids)-1]
 			}
-			if p.height == 0 && c.Rnd.Intn(2) == 0 {
-				nch = universe // a "genesis-like" first block registering many candidates
-			}
-			if nch > universe {
-				nch = universe
-			}
-			perm := c.Rnd.Perm(universe)
-			var chs []c10Change
-			for _, ai := range perm[:nch] {
-				a := ai + 1
-				cur, ok := view[a]
-				if !ok {
-					cur = c10Acct{flag: 'n'}
-				}
-				var ch c10Change
-				switch cur.flag {
-				case 'n':
-					if oddCase && c.Rnd.Intn(3) == 0 {
-						// first registration with a user-supplied isCandidate string: profile and deposit votes are set
-						ch = c10Change{a, 'o', voteVals[1+c.Rnd.Intn(len(voteVals)-1)], true}
-						c.Count("chg:register-odd-flag")
-					} else if c.Rnd.Intn(6) == 0 {
-						ch = c10Change{a, 'n', 0, false}
-						c.Count("chg:touch-noncandidate")
-					} else {
-						// registration: the VotesLog is present (genesis logs 0 votes, a register tx logs deposit votes)
-						ch = c10Change{a, 'y', voteVals[c.Rnd.Intn(len(voteVals))], true}
-						c.Count("chg:register")
-						if ch.votes == 0 {
-							c.Count("chg:register-zero-votes")
-						}
-					}
-				case 'y':
-					switch x := c.Rnd.Intn(20); {
-					case x < 15:
-						v := voteVals[c.Rnd.Intn(len(voteVals))]
-						if v == cur.votes {
-							ch = c10Change{a, 'y', cur.votes, false}
-							c.Count("chg:touch-candidate")
-						} else {
-							ch = c10Change{a, 'y', v, true}
-							if v > cur.votes {
-								c.Count("chg:votes-up")
-							} else {
-								c.Count("chg:votes-down")
-							}
-						}
-					case x < 17:
-						ch = c10Change{a, 'y', cur.votes, false}
-						c.Count("chg:touch-candidate")
-					default:
-						// un-registration sets votes to 0; a VotesLog exists only if the votes changed
-						ch = c10Change{a, 'u', 0, cur.votes != 0}
-						c.Count("chg:unregister")
-						if cur.votes == 0 {
-							c.Count("chg:unregister-zero-votes(no log)")
-						}
-					}
-				case 'u':
-					ch = c10Change{a, 'u', 0, false}
-					c.Count("chg:touch-unregistered")
-				case 'o':
-					// it can be voted for (CallVoteTx only refuses "false" and ""), it cannot un-register
-					if v := voteVals[1+c.Rnd.Intn(len(voteVals)-1)]; v != cur.votes && c.Rnd.Intn(2) == 0 {
-						ch = c10Change{a, 'o', v, true}
-						c.Count("chg:votes-of-odd-flag-account")
-					} else {
-						ch = c10Change{a, 'o', cur.votes, false}
-						c.Count("chg:touch-odd-flag-account")
+			k := 2 + c.Rnd.Intn(3)
+			last, okChain := pid, true
+			for i := 0; i < k && okChain; i++ {
+				mode := 1
+				if i == k-1 {
+					mode = 2
+					if c.Rnd.Intn(4) == 0 {
+						mode = 0
 					}
 				}
-				if malformed && c.Rnd.Intn(3) == 0 {
-					// outside what the chain can produce: re-registration, unlogged vote change, log without change
-					switch c.Rnd.Intn(3) {
-					case 0:
-						ch = c10Change{a, 'y', voteVals[c.Rnd.Intn(len(voteVals))], c.Rnd.Intn(2) == 0}
-					case 1:
-						ch.logged = !ch.logged
-					case 2:
-						ch.votes = voteVals[c.Rnd.Intn(len(voteVals))]
-					}
-					c.Count("chg:malformed")
-				}
-				chs = append(chs, ch)
-				view[a] = c10Acct{ch.flag, ch.votes}
-			}
-			var extra []c10CV
-			if malformed && c.Rnd.Intn(3) == 0 {
-				ne := 1 + c.Rnd.Intn(2)
-				for i := 0; i < ne; i++ {
-					extra = append(extra, c10CV{1 + c.Rnd.Intn(universe), voteVals[c.Rnd.Intn(len(voteVals))]})
-				}
-				c.Count("blk:extra-raw-logs")
-			}
-			// vote logs arrive sorted by address (MergeChangeLogs); account puts in map order — irrelevant
-			sort.Slice(chs, func(i, j int) bool { return chs[i].addr < chs[j].addr })
-			var toks []string
-			anyLog := len(extra) > 0
-			for _, ch := range chs {
-				toks = append(toks, c10ChangeTok(ch))
-				anyLog = anyLog || ch.logged
-			}
-			for _, x := range extra {
-				toks = append(toks, fmt.Sprintf("x%d:%d", x.addr, x.votes))
-			}
-			line := fmt.Sprintf("blk %d %d %s", id, pid, strings.Join(toks, " "))
-			out2 := s2.apply(id, pid, chs, extra)
-			out1 := s1.apply(id, pid, chs, extra)
-			op(line, out2)
-			nb := &c10Live{id: id, pid: pid, height: p.height + 1, view: view, tainted: p.tainted}
-			for _, ch := range chs {
-				if ch.flag != 'n' {
-					nb.changesWithProfile = append(nb.changesWithProfile, ch.addr)
+				last = mkBlock(last, mode)
+				if _, alive := s2.blocks[last]; !alive {
+					okChain = false
 				}
 			}
-			live[id] = nb
-			if pid != ids[len(ids)-1] {
-				c.Count("blk:fork")
-			}
-			if !anyLog {
-				c.Count("blk:no-vote-log(early return)")
-			}
-			if reopened {
-				c.Count("blk:after-reopen")
-			}
-			c10ClassifyBranch(c, p, chs, max, s2, pid, anyLog)
-			if out2 == "panic" || strings.HasPrefix(out2, "err") {
-				c.Count("blk:" + firstWord(out2))
-				nb.tainted = true
-				if !malformed {
-					fail("c10/ranking-panic", fmt.Sprintf("case %d: %s => %s", caseNo, line, out2))
-				}
-				continue
-			}
-			if malformed || nb.tainted {
-				continue
-			}
-			// ---------- direct oracle ----------
-			reg, flags := s2.registeredInView(id, universe)
-			for a := 1; a <= universe; a++ {
-				sh, ok := view[a]
-				if !ok {
-					sh = c10Acct{flag: 'n'}
-				}
-				if flags[a] != sh.flag {
-					fail("c10/view-mismatch", fmt.Sprintf("case %d block %d: account %d reads flag %c through the block's view, %c was put", caseNo, id, a, flags[a], sh.flag))
-					nb.tainted = true
-				}
-			}
-			want := c10FullSort(reg, max)
-			got := c10FromStore(s2.db.GetCandidatesTop(s2.blocks[id].Hash()))
-			ref := c10FromStore(s1.db.GetCandidatesTop(s1.blocks[id].Hash()))
-			_ = out1
-			hasOdd := false
-			for _, f := range flags {
-				if f == 'o' {
-					hasOdd = true
-				}
-			}
-			// root cause of whatever diverges on this lineage
-			sfx := ""
-			if hasOdd {
-				sfx = "/odd-candidate-flag"
-				c.Count("oracle:lineage-with-odd-flag(spec comparison skipped, restart comparison armed)")
-			} else if crashed {
-				sfx = "/crash-context-not-flushed"
-			}
-			hasUnreg, unregVotes := false, false
-			for _, g := range got {
-				if flags[g.addr] != 'y' && flags[g.addr] != 'o' {
-					hasUnreg = true
-					if g.votes != 0 {
-						unregVotes = true
-					}
-				}
-			}
-			ctx := fmt.Sprintf("case %d (max %d) block %d on %d: top=%s, full sort of the registered candidates of its view=%s, never-restarted store=%s", caseNo, max, id, pid, c10ShowCands(got), c10ShowCands(want), c10ShowCands(ref))
-			if hasUnreg {
-				if unregVotes && crashed {
-					fail("c10/unregistered-returns-with-votes/crash-context-not-flushed", ctx)
-				} else {
-					fail("c10/top-contains-unregistered", ctx)
-				}
-				nb.tainted = true
-			}
-			if !c10Equal(got, ref) {
-				fail("c10/restart-differs"+sfx, ctx)
-				nb.tainted = true
-			}
-			if !hasOdd && !hasUnreg && !c10Equal(got, want) && c10Equal(got, ref) {
-				tie := false
-				for i := 0; i < len(got) && i < len(want); i++ {
-					if got[i] != want[i] {
-						tie = got[i].votes == want[i].votes
-						break
-					}
-				}
-				if tie {
-					fail("c10/top-not-sorted-prefix/tie", ctx)
-				} else {
-					fail("c10/top-not-sorted-prefix", ctx)
-				}
-				nb.tainted = true
-			}
-			if !nb.tainted {
-				c.Count("oracle:block-ok")
+			c.Count(fmt.Sprintf("op:promote-chain(len=%d)+reopen", k))
+			if okChain {
+				doStable(last)
+				doReopen()
 			}
 		case r < 84: // ---- make a block stable
 			var cands []int
@@ -764,21 +896,7 @@ func c10Case(c *Ctx, caseNo int) {
 					id = live[id].pid
 				}
 			}
-			out2 := s2.setStable(id)
-			s1.setStable(id)
-			op(fmt.Sprintf("stable %d", id), out2)
-			c.Count("op:stable")
-			var drop []int
-			for _, x := range ids {
-				if !isDesc(x, id) {
-					drop = append(drop, x)
-				}
-			}
-			for _, x := range drop {
-				dead = append(dead, x)
-				delete(live, x)
-			}
-			stable = id
+			doStable(id)
 		case r < 87 && func() bool { // ---- crash inside the commit of a child of the stable block
 			for _, id := range ids {
 				if id != stable && live[id].pid == stable {
@@ -820,39 +938,7 @@ func c10Case(c *Ctx, caseNo int) {
 				}
 			}
 		case r < 90: // ---- restart
-			drained := c.Rnd.Intn(4) != 0 // 1 in 4 restarts happens with writes still queued
-			s2.reopen(drained)
-			if !drained {
-				c.Count("op:reopen-with-pending-writes")
-			}
-			out := s2.showBlock(stable)
-			op("reopen", out)
-			c.Count("op:reopen")
-			reopened = true
-			for _, x := range ids {
-				if x != stable {
-					dead = append(dead, x)
-					delete(live, x)
-				}
-			}
-			lb := live[stable]
-			if !malformed && !lb.tainted {
-				want1 := c10FromStore(s1.db.GetCandidatesTop(s1.blocks[stable].Hash()))
-				got := c10FromStore(s2.db.GetCandidatesTop(s2.blocks[stable].Hash()))
-				if !c10Equal(got, want1) {
-					sfx := ""
-					for _, acc := range lb.view {
-						if acc.flag == 'o' {
-							sfx = "/odd-candidate-flag"
-						}
-					}
-					if sfx == "" && crashed {
-						sfx = "/crash-context-not-flushed"
-					}
-					fail("c10/restart-differs"+sfx, fmt.Sprintf("case %d: top of the stable block %d after re-open %s, before %s", caseNo, stable, c10ShowCands(got), c10ShowCands(want1)))
-					lb.tainted = true
-				}
-			}
+			doReopen()
 		default: // ---- read a top list (also of blocks the store has dropped)
 			id := ids[c.Rnd.Intn(len(ids))]
 			if len(dead) > 0 && c.Rnd.Intn(3) == 0 {
@@ -963,4 +1049,51 @@ func c10LatentAfterScan(c *Ctx) {
 	}
 	r := Safe(func() string { return fmt.Sprint(s.db.AfterScan(leveldb.ItemFlagAct, acc.Address.Bytes(), buf)) })
 	c.Count("latent:AfterScan(account with isCandidate=yes) => " + r + " (AfterScan has no caller in /repo)")
+}
+
+// c10DirectedPromote: three blocks made stable by ONE SetStableBlock call — registrations in the first, a vote
+// change in the second, nothing in the third — then a clean restart.  Every blockCommit of the call has to
+// leave its candidates in context.data; the restarted node must publish what it published before.
+func c10DirectedPromote(c *Ctx) {
+	store.VerifSetMaxCandidateCount(2)
+	s2, s1 := c10NewStore(), c10NewStore()
+	defer s1.close()
+	defer s2.close()
+	var replay []string
+	op := func(line, out string) {
+		c.Op(line, out)
+		replay = append(replay, line+" => "+out)
+	}
+	op("max 2", "ok")
+	s1.genesis()
+	s2.genesis()
+	op("genesis", "ok")
+	blocks := [][]c10Change{
+		{{1, 'y', 30, true}, {2, 'y', 20, true}, {3, 'y', 10, true}},
+		{{1, 'y', 5, true}},
+		{},
+	}
+	for i, chs := range blocks {
+		var toks []string
+		for _, ch := range chs {
+			toks = append(toks, c10ChangeTok(ch))
+		}
+		out := s2.apply(i+1, i, chs, nil)
+		s1.apply(i+1, i, chs, nil)
+		op(strings.TrimSpace(fmt.Sprintf("blk %d %d %s", i+1, i, strings.Join(toks, " "))), out)
+	}
+	out := s2.setStable(3)
+	s1.setStable(3)
+	op("stable 3", out)
+	before := c10FromStore(s2.db.GetCandidatesTop(s2.blocks[3].Hash()))
+	s2.reopen(true)
+	op("reopen", s2.showBlock(3))
+	c.Count("directed:three-blocks-promoted-in-one-call+reopen")
+	after := c10FromStore(s2.db.GetCandidatesTop(s2.blocks[3].Hash()))
+	ref := c10FromStore(s1.db.GetCandidatesTop(s1.blocks[3].Hash()))
+	if !c10Equal(after, ref) || !c10Equal(after, before) {
+		c.Count("oracle:c10/restart-differs")
+		c10SigCount["c10/restart-differs"]++
+		c.Fail("c10/restart-differs", fmt.Sprintf("directed: blocks 1..3 made stable by one SetStableBlock(3) (candidate changes in 1 and 2, none in 3); top of block 3 before the restart %s, after the restart %s, on the node that did not restart %s", c10ShowCands(before), c10ShowCands(after), c10ShowCands(ref)), map[string]interface{}{"directed": "promote-3-then-reopen", "ops": replay})
+	}
 }
